@@ -200,6 +200,14 @@ pub fn c03_case(c: &Case, idx: u64) -> CaseOut {
             None => "reject".into(),
         },
     ));
+    // the same stream through the independent RFC/zlib reading of the dynamic header (Model/SpecRFC.lean)
+    out.requests.push((
+        format!("specrfc {}", hex(d)),
+        match &z {
+            Some((p, n)) => format!("ok {} {}", fnv64(p), n),
+            None => "reject".into(),
+        },
+    ));
     out.tags.push(format!("impl-{}", outcome_word(&imp)));
     out.tags.push(if z.is_some() { "zlib-ok".into() } else { "zlib-reject".into() });
     if let (Outcome::Ok(r), Some((zp, zn))) = (&imp, &z) {
